@@ -364,6 +364,18 @@ func safeUpdate(d *document.Document, edits []Edit, fail string) (err error, pan
 			err = fmt.Errorf("panic: %v", r)
 		}
 	}()
+	switch fail {
+	case "size", "sizep":
+		// the callback is fine, but the result exceeds the document's size limit
+		old := d.MaxSizeLimit
+		d.MaxSizeLimit = 1
+		defer func() { d.MaxSizeLimit = old }()
+	case "schema", "schemap":
+		// the callback is fine, but the result breaks the attached schema
+		old := d.SchemaRules
+		d.SchemaRules = []types.Rule{{Path: "$", Type: "object"}, {Path: "$.verifmust", Type: "string"}}
+		defer func() { d.SchemaRules = old }()
+	}
 	err = d.Update(func(root *json.Object, p *presence.Presence) error {
 		ApplyEdits(root, p, edits)
 		switch fail {
@@ -371,6 +383,12 @@ func safeUpdate(d *document.Document, edits []Edit, fail string) (err error, pan
 			return errInjected
 		case "panic":
 			panic("injected updater panic")
+		case "sizep", "schemap":
+			// the same callback also changes presence
+			p.Set("verif", "x")
+			root.SetInteger("verifextra", 1)
+		case "size", "schema":
+			root.SetInteger("verifextra", 1)
 		}
 		return nil
 	})
